@@ -149,6 +149,20 @@ def run(repo, chk):
         fi = repo.func(q)
         calls = [c for c in ast.walk(fi.node) if isinstance(c, ast.Call) and is_name(c.func, "check_element")]
         chk.ob("R11.3", f"{q}:uses-check_element", bool(calls), fi.where, f"{role} is decided by check_element ({len(calls)} call(s))")
+    si = repo.func(f"transform.{cls}.should_instrument")
+    reads = sorted({n.attr for n in ast.walk(si.node) if is_self_attr(n) and isinstance(n.ctx, ast.Load)})
+    writes = sorted({norm(t) for n in ast.walk(si.node) if isinstance(n, (ast.Assign, ast.AugAssign)) for t in (n.targets if isinstance(n, ast.Assign) else [n.target])
+                     if "self." in norm(t)})
+    params = [a.arg for a in si.node.args.args][1:]
+    chk.ob("R11.3", "should_instrument:depends-only-on-name-annotation-and-selection", set(reads) <= {"to_instrument", "_evaluate"} and not writes, si.where,
+           f"the instrumentation decision reads only the selected elements and the evaluated annotation (self attributes read: {reads}; written: {writes}): "
+           "it is decided per binding -- a variable bound several times with different annotations gets a separate decision each time" if set(reads) <= {"to_instrument", "_evaluate"} and not writes else
+           f"should_instrument keeps state between bindings (reads {reads}, writes {writes}): the decision for one binding of a name can be reused for another binding with a different annotation")
+    ce_calls = [c for c in ast.walk(si.node) if isinstance(c, ast.Call) and is_name(c.func, "check_element")]
+    ok = len(ce_calls) == 1 and len(params) == 2 and is_name(ce_calls[0].args[1], params[0]) and \
+        any(isinstance(n, ast.Assign) and norm(n.value) == f"self._evaluate({params[1]})" and norm(n.targets[0]) == norm(ce_calls[0].args[2]) for n in ast.walk(si.node))
+    chk.ob("R11.3", "should_instrument:predicate-on-this-binding's-name-and-annotation", ok, si.where,
+           "check_element is applied to the name and the evaluated annotation of the binding at hand")
     fs = repo.func("overlay.fits_selector")
     tf = norm(fs.node)
     chk.ob("R11.3", "overlay.fits_selector:function-tag-from-return-annotation", "fcat = pfn.__annotations__.get('return', None)" in tf and "check_element(selector.element, fname, fcat)" in tf, fs.where,
